@@ -502,6 +502,10 @@ def t4_block(name, cmd):
         return bytes([0x02 | bn ^ 1]) + inf
     if kind == 'i-chain':
         return bytes([0x12 | bn]) + inf
+    if kind == 'ichainbig':
+        # a chaining I-block filled to the frame size: a chain that never
+        # ends passes the largest legal response after some 260 blocks
+        return bytes([0x12 | bn]) + bytes([0xAA]) * 250
     if kind == 'i-chain-other':
         return bytes([0x12 | bn ^ 1]) + inf
     if kind == 'i-cid':
@@ -519,6 +523,7 @@ T4_BLOCKS = ('rack-other', 'rack-same', 'rnak-other', 'rnak-same',
              'wtx:00', 'wtx:01', 'wtx:3b', 'wtx:3c', 'wtx:ff', 'deselect',
              'i', 'i:9000', 'i:6a82', 'i:00', 'i:aabbccddee9000',
              'i-other:9000', 'i-chain', 'i-chain:aa', 'i-chain-other:aa',
+             'ichainbig',
              'i-cid:9000', 'i-nad:9000', 'r-cid', 'wtx-cid:01', 'wtx-mute:01')
 T4_APDU_RSP = ('', '00', '9000', '6a82', '6700', '6282', '6300', '9100',
                'ffff')
@@ -767,7 +772,13 @@ def run_case(d):
     sim = base.new_sim(img, **opts)
     script = d.get('script')
     install(sim, tuple(script) if script else None)
-    o = observe(sim, base.budget)
+    budget = base.budget
+    if script and script[0] == 'block' and script[2] == 'ichainbig':
+        # a chain of full blocks is legal up to the largest response (65538
+        # octets / 250 = 263 blocks): the bound for this card is that chain
+        # once plus the ordinary budget
+        budget += 270
+    o = observe(sim, budget)
     vs = judge(base, img, o, d.get('content', True))
     if not vs:
         return [], o
@@ -783,7 +794,7 @@ def run_case(d):
                               base.fields[fi][2], val) for fi, val in muts]
         detail['image'] = {k: bytes(v) for k, v in img.items()}
         detail['commands'] = o['cmds']
-        detail['budget'] = base.budget
+        detail['budget'] = budget
         detail['log_tail'] = [(i, n, bytes(c)[:24],
                                r if isinstance(r, str) or r is None
                                else bytes(r)[:24])
